@@ -114,3 +114,7 @@ from contracts.discard_walk import discard_walk_unit  # noqa: E402
 UNITS.append(discard_walk_unit("C10"))
 from contracts.adapt_arms import dataclass_unit  # noqa: E402
 UNITS.append(dataclass_unit("C10"))
+
+# a declared default is stored in its config form once (what the first parse returns is then already normal for lazy instances, dataclass instances, specs, Enum members)
+from contracts.any_units import normalize_default_unit  # noqa: E402
+UNITS.append(normalize_default_unit("C10"))
